@@ -2,6 +2,7 @@
 import json
 
 import common
+from common import cstr, clist, cpair
 import front_run
 import printer
 import to_coq
@@ -113,6 +114,32 @@ def first_difference(a, b, path="tree"):
     return None if a == b else f"{path}: {a!r} vs {b!r}"
 
 
+def strings_for_identifier_values(items):
+    """The same description with identifier-valued extension/parameter values spelled as strings: the tree cannot tell `rpm` from
+    "rpm" (the transformer returns str for both), so the model's items hold a string and its printer prints one."""
+    def conv(v):
+        if isinstance(v, int):
+            return v
+        if v[0] == "ident":
+            return ("str", v[1])
+        if v[0] == "arr":
+            return ("arr", [conv(x) for x in v[1]])
+        return v
+    out = []
+    for it in items:
+        if it[0] == "struct":
+            out.append(("struct", it[1], [dict(f, params=[(pn, [conv(a) for a in pa]) for pn, pa in f.get("params", [])]) for f in it[2]]))
+        elif it[0] == "enum":
+            out.append(("enum", it[1], [(n, conv(v)) for n, v in it[2]]))
+        elif it[0] == "impl":
+            out.append(it[:5] + ([("ext", b[1], conv(b[2])) if b[0] == "ext" else ("sig", b[1], [(k, conv(v)) for k, v in b[2]]) for b in it[5]],))
+        elif it[0] == "device":
+            out.append(("device", it[1], [(k, conv(v)) for k, v in it[2]]))
+        else:
+            out.append(it)
+    return out
+
+
 def tree_summary(fcp):
     return ([(s.name, [(f.name, f.field_id) for f in s.fields]) for s in fcp.structs],
             [(e.name, [(x.name, x.value) for x in e.enumeration]) for e in fcp.enums],
@@ -124,7 +151,7 @@ def tree_summary(fcp):
 def run(chk):
     quick = chk.tier == "quick"
     n, nfmt = (220, 2) if quick else (5000, 4)
-    broken = chk.proof_obligations(["Corr/Front.vo"])
+    broken = chk.proof_obligations(["Corr/Front.vo", "Corr/FrontPrint.vo"])
     chk.coverage["rule"] = (
         "descriptions using every production (structs with nested types to depth 3, several parameters per field, enums with negative values, "
         "impls with/without 'as' and rename, extension values of every form incl. nested arrays, signal blocks, services, devices) printed to "
@@ -132,8 +159,7 @@ def run(chk):
         "newlines, // and /* */ comments between any two tokens); get_fcp_from_string's tree is compared in Coq with the model front end; "
         "non-trivial = >= 3 items; distinct = rendered text")
     oracle = printer.float_oracle(None)
-    cases, meta, fails = [], [], []
-    chk.level = "exploration"
+    cases, meta, fails, pcases, pmeta = [], [], [], [], []
     # known finding builtin-prefix: replay its class first
     for nm in ("strategy", "i2c", "u8x", "f32bit"):
         src = f'version: "3"\nstruct {nm} {{ a @0: u8, }}\nstruct S {{ s @0: {nm}, }}'
@@ -147,9 +173,16 @@ def run(chk):
     for _ in range(n):
         items = printer.gen_items(chk.rng)
         canon_toks = printer.tokens(items)
-        texts = [printer.render(canon_toks)]
+        variants = [(canon_toks, [printer.render(canon_toks), printer.render(canon_toks, chk.rng)])]
         for _ in range(nfmt):
-            texts.append(printer.render(printer.tokens(items, chk.rng), chk.rng))
+            vt = printer.tokens(items, chk.rng)
+            variants.append((vt, [printer.render(vt, chk.rng)]))
+        texts = [t for _, ts in variants for t in ts]
+        # printer side of the tie (Corr/FrontPrint.v): the description as model items, the model printer's tokens, every variant
+        model_canon = printer.tokens(strings_for_identifier_values(items))
+        pcases.append(cpair(cstr("3"), clist(to_coq.pitem(it) for it in items), clist(to_coq.ptoken(t) for t in model_canon),
+                            clist(cpair(clist(to_coq.ptoken(t) for t in vt), clist(cstr(x) for x in ts)) for vt, ts in variants)))
+        pmeta.append(texts[0])
         want = expected_tree(items)
         want_dict = expected_dict(items)
         trees = []
@@ -179,6 +212,16 @@ def run(chk):
         except common.CoqError as e:
             broken = f"correspondence could not be evaluated: {e}"
     chk.coverage["model_out_of_domain"] = len(dom)
+    pm = []
+    if broken is None:
+        try:
+            pm = common.run_cases("FrontPrint", pcases, shard=40)
+        except common.CoqError as e:
+            broken = f"printer correspondence could not be evaluated: {e}"
+    chk.coverage["printer_cases"] = len(pcases)
+    for i in pm[:3]:
+        fails.append({"kind": "model-printer-vs-harness-printer", "correspondence": "Corr.FrontPrint.check_case (well-formedness, print_tokens = the harness' canonical tokens, parse_tokens of every variant, lex of every text)",
+                      "source": pmeta[i], "no_failing_input": True})
     if len(dom) * 4 > len(cases):
         broken = broken or f"the model answered out-of-domain on {len(dom)} of {len(cases)} cases: the correspondence says too little"
     finish(chk, fails, mism, meta, broken, "Props/C07.v")
@@ -190,7 +233,8 @@ def run(chk):
 def finish(chk, fails, mism, meta, broken, props):
     fails.sort(key=lambda f: len(json.dumps(f, default=repr)))
     for f in fails[:3]:
-        chk.violation(f)
+        f = dict(f)
+        chk.violation(f, no_failing_input=bool(f.pop("no_failing_input", False)))
     if not fails:
         for i in mism[:3]:
             chk.violation({"kind": "model-vs-implementation", "correspondence": "Corr.Front.check_case (models Front.Lexer/Parser/Elab)",
